@@ -25,6 +25,11 @@ transforms:
   comp2loop  X = [E for T in IT] -> X = []; for T in IT: X.append(E)
   aliasself  the most-read attribute self.<a> of a method read once into a local at the top of the method
   renamenon5 rename + a `pass` in every function (the reference names cannot be restored: rules must be name-free on their own)
+  addlog     a logger.debug(...) statement at the top of every non-jit function (module logger added)
+  stripdoc   docstrings removed
+  reorderdefs runs of top-level functions / methods of a class written in the reverse order
+  extracthelper the expression of the last `return E` of each function / method moved into a new module-level helper
+  inlinetemp single-use temporaries substituted into the statement that follows them
   rename     every purely local variable v of a function renamed v_r  (parameters, globals, closure variables untouched)
 """
 import ast, sys, os, json, copy, multiprocessing as mp
@@ -456,7 +461,188 @@ class RenameNoN5(ast.NodeTransformer):
         return n
 
 
-TRANSFORMS = {"renamenon5": RenameNoN5, "cmpneg": CmpNeg, "guardnest": GuardNest, "toifexp": ToIfExp, "npkw": NpKw, "comp2loop": Comp2Loop, "aliasself": AliasSelf, "flipcmp": FlipCmp, "commute": Commute, "retvar": RetVar, "kworder": KwOrder, "ifinvert": IfInvert, "rename": Rename, "combo": Combo, "swapadj": SwapAdj, "dropelse": DropElse, "addelse": AddElse, "extractvar": ExtractVar, "kw2pos": None, "aug2assign": Aug2Assign}
+
+def _doc_k(f):
+    return 1 if (f.body and isinstance(f.body[0], ast.Expr) and isinstance(f.body[0].value, ast.Constant) and isinstance(f.body[0].value.value, str)) else 0
+
+
+def _is_jit(f):
+    return any("jit" in ast.unparse(d) for d in f.decorator_list)
+
+
+class AddLog(ast.NodeTransformer):
+    """a logger.debug(...) line at the top of every (non-jit) function; the module gets `import logging` and a module logger"""
+    def visit_Module(self, n):
+        hit = False
+        for f in ast.walk(n):
+            if isinstance(f, ast.FunctionDef) and not _is_jit(f):
+                f.body.insert(_doc_k(f), ast.Expr(value=ast.Call(func=ast.Attribute(value=ast.Name(id="_mm_logger", ctx=ast.Load()), attr="debug", ctx=ast.Load()),
+                                                                 args=[ast.Constant(value="enter " + f.name)], keywords=[])))
+                hit = True
+        if hit:
+            k = _doc_k(n)
+            while k < len(n.body) and isinstance(n.body[k], ast.ImportFrom) and n.body[k].module == "__future__":
+                k += 1
+            n.body[k:k] = ast.parse("import logging as _mm_logging\n_mm_logger = _mm_logging.getLogger(__name__)\n").body
+        return n
+
+
+class StripDoc(ast.NodeTransformer):
+    """docstrings removed (a `pass` is left when the body would be empty)"""
+    def visit_Module(self, n):
+        for f in ast.walk(n):
+            if isinstance(f, (ast.FunctionDef, ast.ClassDef)) and _doc_k(f):
+                f.body = f.body[1:] or [ast.Pass()]
+        return n
+
+
+class ReorderDefs(ast.NodeTransformer):
+    """maximal runs of top-level function definitions reversed; methods of a class reversed when no method name is defined twice (property setters) and no
+    decorator / default / class-level statement refers to another member"""
+    def _rev_runs(self, body, ok):
+        out, run = [], []
+        for st in body + [None]:
+            if st is not None and isinstance(st, ast.FunctionDef) and ok(st):
+                run.append(st)
+            else:
+                out.extend(reversed(run)); run = []
+                if st is not None:
+                    out.append(st)
+        return out
+
+    def visit_Module(self, n):
+        top = {s.name for s in n.body if isinstance(s, (ast.FunctionDef, ast.ClassDef))}
+
+        def ok_top(f):
+            outer = [d for d in f.decorator_list] + f.args.defaults + [d for d in f.args.kw_defaults if d is not None]
+            return not any(isinstance(x, ast.Name) and x.id in top for d in outer for x in ast.walk(d))
+        n.body = self._rev_runs(n.body, ok_top)
+        for c in n.body:
+            if isinstance(c, ast.ClassDef):
+                names = [s.name for s in c.body if isinstance(s, ast.FunctionDef)]
+                if len(names) != len(set(names)):
+                    continue
+                members = set(names) | {t.id for s in c.body if isinstance(s, ast.Assign) for t in s.targets if isinstance(t, ast.Name)}
+
+                def ok_m(f, members=members):
+                    outer = [d for d in f.decorator_list] + f.args.defaults + [d for d in f.args.kw_defaults if d is not None]
+                    return not any(isinstance(x, ast.Name) and x.id in members for d in outer for x in ast.walk(d))
+                c.body = self._rev_runs(c.body, ok_m)
+        return n
+
+
+class ExtractHelper(ast.NodeTransformer):
+    """the expression of the last `return E` of every top-level function / method moved into a new module-level helper that receives the locals it reads"""
+    def visit_Module(self, n):
+        helpers = []
+        cnt = [0]
+
+        def locals_of(f):
+            names = {a.arg for a in f.args.posonlyargs + f.args.args + f.args.kwonlyargs}
+            if f.args.vararg:
+                names.add(f.args.vararg.arg)
+            if f.args.kwarg:
+                names.add(f.args.kwarg.arg)
+            for x in ast.walk(f):
+                if isinstance(x, ast.Name) and isinstance(x.ctx, ast.Store):
+                    names.add(x.id)
+                elif isinstance(x, (ast.FunctionDef, ast.ClassDef)) and x is not f:
+                    names.add(x.name)
+                elif isinstance(x, ast.ExceptHandler) and x.name:
+                    names.add(x.name)
+                elif isinstance(x, (ast.Import, ast.ImportFrom)):
+                    for a in x.names:
+                        names.add((a.asname or a.name).split(".")[0])
+            return names
+
+        def handle(f):
+            if any(isinstance(x, (ast.Yield, ast.YieldFrom, ast.Await, ast.Global, ast.Nonlocal)) for x in ast.walk(f)):
+                return
+            rets = [x for x in ast.walk(f) if isinstance(x, ast.Return) and x.value is not None]
+            # only returns that belong to f itself
+            inner = {id(r) for g in ast.walk(f) if isinstance(g, (ast.FunctionDef, ast.Lambda)) and g is not f for r in ast.walk(g) if isinstance(r, ast.Return)}
+            rets = [r for r in rets if id(r) not in inner]
+            if not rets:
+                return
+            r = rets[-1]
+            e = r.value
+            if isinstance(e, (ast.Name, ast.Constant)):
+                return
+            for x in ast.walk(e):
+                if isinstance(x, (ast.Lambda, ast.NamedExpr, ast.Starred)):
+                    return
+                if isinstance(x, ast.Name) and x.id in ("super", "__class__", "locals", "vars"):
+                    return
+                if isinstance(x, ast.Attribute) and x.attr.startswith("__") and not x.attr.endswith("__"):
+                    return
+            loc = locals_of(f)
+            comp_bound = {nm.id for x in ast.walk(e) if isinstance(x, (ast.ListComp, ast.SetComp, ast.DictComp, ast.GeneratorExp)) for g in x.generators for nm in ast.walk(g.target) if isinstance(nm, ast.Name)}
+            used = []
+            for x in ast.walk(e):
+                if isinstance(x, ast.Name) and isinstance(x.ctx, ast.Load) and x.id in loc and x.id not in comp_bound and x.id not in used:
+                    used.append(x.id)
+            cnt[0] += 1
+            hname = f"_mm_{f.name.strip('_')}_ret{cnt[0]}"
+            helpers.append(ast.FunctionDef(name=hname, args=ast.arguments(posonlyargs=[], args=[ast.arg(arg=u) for u in used], kwonlyargs=[], kw_defaults=[], defaults=[]),
+                                           body=[ast.Return(value=e)], decorator_list=[], lineno=f.lineno))
+            r.value = ast.Call(func=ast.Name(id=hname, ctx=ast.Load()), args=[ast.Name(id=u, ctx=ast.Load()) for u in used], keywords=[])
+
+        for st in n.body:
+            if isinstance(st, ast.FunctionDef):
+                handle(st)
+            elif isinstance(st, ast.ClassDef):
+                for m in st.body:
+                    if isinstance(m, ast.FunctionDef):
+                        handle(m)
+        n.body.extend(helpers)
+        return n
+
+
+class InlineTemp(ast.NodeTransformer):
+    """t = E directly followed by the only statement that reads t (exactly once, t never read elsewhere in the function) -> E written in place"""
+    def visit_FunctionDef(self, f):
+        self.generic_visit(f)
+        loads, stores = {}, {}
+        for x in ast.walk(f):
+            if isinstance(x, ast.Name):
+                d = loads if isinstance(x.ctx, ast.Load) else stores
+                d[x.id] = d.get(x.id, 0) + 1
+        params = {a.arg for a in f.args.posonlyargs + f.args.args + f.args.kwonlyargs}
+
+        def block(body):
+            out = []
+            i = 0
+            while i < len(body):
+                st = body[i]
+                nxt = body[i + 1] if i + 1 < len(body) else None
+                if (isinstance(st, ast.Assign) and len(st.targets) == 1 and isinstance(st.targets[0], ast.Name) and nxt is not None
+                        and isinstance(nxt, (ast.Assign, ast.Return, ast.Expr, ast.AugAssign)) and not isinstance(st.value, (ast.Constant, ast.Name))):
+                    t = st.targets[0].id
+                    uses = [x for x in ast.walk(nxt) if isinstance(x, ast.Name) and x.id == t and isinstance(x.ctx, ast.Load)]
+                    in_scope = any(isinstance(s, (ast.Lambda, ast.ListComp, ast.SetComp, ast.DictComp, ast.GeneratorExp)) and any(u in list(ast.walk(s)) for u in uses) for s in ast.walk(nxt))
+                    if (len(uses) == 1 and loads.get(t, 0) == 1 and stores.get(t, 0) == 1 and t not in params and not in_scope
+                            and not any(isinstance(x, (ast.Yield, ast.Await, ast.NamedExpr)) for x in ast.walk(st.value))):
+                        class S(ast.NodeTransformer):
+                            def visit_Name(s, n):
+                                return st.value if (n.id == t and isinstance(n.ctx, ast.Load)) else n
+                        out.append(S().visit(nxt))
+                        i += 2
+                        continue
+                for fld in ("body", "orelse", "finalbody"):
+                    blk = getattr(st, fld, None)
+                    if isinstance(blk, list) and blk and isinstance(blk[0], ast.stmt) and not isinstance(st, (ast.FunctionDef, ast.ClassDef)):
+                        setattr(st, fld, block(blk))
+                if isinstance(st, ast.Try):
+                    for h in st.handlers:
+                        h.body = block(h.body)
+                out.append(st)
+                i += 1
+            return out
+        f.body = block(f.body)
+        return f
+
+
+TRANSFORMS = {"addlog": AddLog, "stripdoc": StripDoc, "reorderdefs": ReorderDefs, "extracthelper": ExtractHelper, "inlinetemp": InlineTemp, "renamenon5": RenameNoN5, "cmpneg": CmpNeg, "guardnest": GuardNest, "toifexp": ToIfExp, "npkw": NpKw, "comp2loop": Comp2Loop, "aliasself": AliasSelf, "flipcmp": FlipCmp, "commute": Commute, "retvar": RetVar, "kworder": KwOrder, "ifinvert": IfInvert, "rename": Rename, "combo": Combo, "swapadj": SwapAdj, "dropelse": DropElse, "addelse": AddElse, "extractvar": ExtractVar, "kw2pos": None, "aug2assign": Aug2Assign}
 
 
 def _kw2pos_sources():
